@@ -597,7 +597,7 @@ def build_script(st, system, r, dt_si=None, t_si=None, policy=None, isp=None):
         t_sample = st.UnitArray([x / float(si.TIME[own]) for x in t_si], own)
     kw = dict(system=system, t_sample=t_sample, time_step=tq(dt_si),
               sampling_policy=policy or r.choice(["on_t_sample", "on_iteration", "on_interval", "no_sampling"]),
-              sampling_interval=tq(dt_si * r.uniform(1.5, 20)), rng_seed=r.randrange(2 ** 32),
+              sampling_interval=tq(dt_si * r.uniform(1.5, 20)), rng_seed=(r.choice([0, 0, 1, 2 ** 32 - 1]) if r.random() < 0.25 else r.randrange(2 ** 32)),
               init_state_processing=isp or r.choice(["auto", "none", "Poisson", "redist"]),
               units_system=st.UnitsSystem(**si.sys_dict(usys)))
     if r.random() < 0.6:
